@@ -448,3 +448,20 @@ pub fn run_c06(ctx: &Ctx) -> i32 {
     });
     finish(ctx, &info, cov, &["alphabet {'/', '.', 'a', 'b', 'é'}; longer strings and other characters are not covered"], &vio)
 }
+
+/// Join on every string up to length `l` (VfsPath and AsyncVfsPath); only panics are returned (C13).
+pub fn panic_sweep(l: usize) -> (u64, Vec<Violation>) {
+    let r1 = VfsPath::new(MemoryFS::new());
+    let r2 = VfsPath::new(MemoryFS::new());
+    let (n1, f1, _) = sweep("VfsPath", &r1, &r2, l, 2);
+    let a1 = AsyncVfsPath::new(AsyncMemoryFS::new());
+    let a2 = AsyncVfsPath::new(AsyncMemoryFS::new());
+    let (n2, f2, _) = sweep("AsyncVfsPath", &a1, &a2, l, 2);
+    let v = f1
+        .into_iter()
+        .chain(f2)
+        .filter(|f| f.sig.contains("panic"))
+        .map(|f| Violation { property: "C13".into(), signature: f.sig, summary: f.what.clone(), replay: json!({"engine": "path", "case": f.what}) })
+        .collect();
+    (n1 + n2, v)
+}
